@@ -128,7 +128,7 @@ Theorem C02_bitflip_rejected_min :
 Proof. exact top_bitflip_min. Qed.
 Print Assumptions C02_bitflip_rejected_min.
 
-Theorem C02_bitflip_rejected_prefix :
+Theorem C02_bitflip_rejected_prefix_partial :
   forall reveal p k v data data' r c,
     reveal_sensitive reveal ->
     wrap_prefix_ord reveal [p] [k] v data = Found r c ->
@@ -137,7 +137,16 @@ Theorem C02_bitflip_rejected_prefix :
       forall r' c', wrap_prefix_ord reveal [p] [k] v data' = Found r' c' ->
         exists id', reveal k (tag_at p data') = Some id' /\ In (id', r') v /\ id' <> id.
 Proof. exact top_bitflip_prefix. Qed.
-Print Assumptions C02_bitflip_rejected_prefix.
+Print Assumptions C02_bitflip_rejected_prefix_partial.
+
+Definition C02_bitflip_rejected_prefix_full_statement : Prop :=
+  forall reveal p k v data data' r c,
+    reveal_sensitive reveal ->
+    wrap_prefix_ord reveal [p] [k] v data = Found r c ->
+    tag_at p data' <> tag_at p data ->
+    exists id, reveal k (tag_at p data) = Some id /\ In (id, r) v /\
+      forall r' c', wrap_prefix_ord reveal [p] [k] v data' = Found r' c' ->
+        exists id', reveal k (tag_at p data') = Some id' /\ In (id', r') v /\ id' <> id.
 
 Theorem C02_bitflip_rejected_obfs4_mark :
   forall mark hs data data' e r c,
